@@ -5,7 +5,7 @@ package main
 // structural clause stays here with the final reason.
 func init() {
 	pending := "rules designed in DESIGN.md §4 but not armed yet in this revision of the checker; not claimed until they are"
-	for _, id := range []string{"C01", "C03", "C04", "C09", "C10", "C11", "C12", "C19", "C20"} {
+	for _, id := range []string{"C01", "C03", "C04", "C10", "C12", "C19", "C20"} {
 		declareNotApplicable(id, pending)
 	}
 }
